@@ -86,6 +86,11 @@ func (p Path) local() string {
 	if strings.HasPrefix(*p.P, AmlCoreNS) {
 		return "core." + strings.TrimPrefix(*p.P, AmlCoreNS) // a built-in alias the profile does not declare
 	}
+	for _, a := range altNamespaces {
+		if strings.HasPrefix(*p.P, a.ns) {
+			return a.alias + "." + strings.TrimPrefix(*p.P, a.ns)
+		}
+	}
 	return "ex." + strings.TrimPrefix(*p.P, NS)
 }
 
@@ -313,6 +318,8 @@ type ProfileSpec struct {
 	Dangling map[string][]string
 	// atoms the YAML tree emitter writes as embedded Rego (gen_c15)
 	RegoAtoms map[int]bool
+	// further prefix declarations (alias -> namespace)
+	Prefixes map[string]string
 }
 
 func compactClass(iri string) string { return "ex." + strings.TrimPrefix(iri, NS) }
@@ -324,6 +331,14 @@ func (p ProfileSpec) Render() string {
 	w.line(0, "prefixes:")
 	w.line(1, "ex: "+NS)
 	w.line(1, "xsd: http://www.w3.org/2001/XMLSchema#")
+	var extra []string
+	for a := range p.Prefixes {
+		extra = append(extra, a)
+	}
+	sort.Strings(extra)
+	for _, a := range extra {
+		w.line(1, a+": "+yq(p.Prefixes[a]))
+	}
 	levels := p.Levels
 	if levels == nil {
 		levels = map[string][]string{}
@@ -472,6 +487,42 @@ func (rv *ReportView) Pairs() []string {
 	}
 	sort.Strings(acc)
 	return acc
+}
+
+// namespaces of other shapes, declared by the profile under these aliases (ProfileSpec.Prefixes): one that ends in neither `#`
+// nor `/`, one that ends in `=`, and one bound to the NAME of a built-in alias (`apiExt`), which the profile's declaration overrides
+var altNamespaces = []struct{ alias, ns string }{
+	{"inv", "urn:example:inventory:"}, {"w_", "http://ex.org/w?k="}, {"apiExt", "http://ex.org/own-ext#"},
+}
+
+// moveToNs rewrites predicate NS+local to the namespace of altNamespaces[k] everywhere in the graph and the path
+func moveToNs(gr Graph, p *Path, local string, k int) (alias, ns string) {
+	moveIri(gr, p, NS+local, altNamespaces[k].ns+local)
+	return altNamespaces[k].alias, altNamespaces[k].ns
+}
+
+func moveIri(gr Graph, p *Path, from, to string) {
+	for i := range gr {
+		for j := range gr[i].Props {
+			if gr[i].Props[j].Iri == from {
+				gr[i].Props[j].Iri = to
+			}
+		}
+	}
+	var walk func(q *Path)
+	walk = func(q *Path) {
+		if q.P != nil && *q.P == from {
+			t := to
+			q.P = &t
+		}
+		for k := range q.Seq {
+			walk(&q.Seq[k])
+		}
+		for k := range q.Alt {
+			walk(&q.Alt[k])
+		}
+	}
+	walk(p)
 }
 
 // moveToCore rewrites predicate NS+local to the a.ml core namespace everywhere in the graph and the path, so that the profile
